@@ -21,9 +21,9 @@ func cm(c *an.Ctx, rule, typ, name string) *ssa.Function {
 
 func init() {
 	register(&Rule{
-		ID: "C20",
+		ID:      "C20",
 		Explain: "Decides the structural clauses that keep the local coordinate valid whatever peers report: in Client.Update every mutation of client state (directly or through the four update helpers, which nobody else calls) is edge-dominated by checkCoordinate(other)==nil (compatible ∧ valid) and by 0 <= rtt <= max; every path from the mutations to the successful return passes the IsValid() re-check, whose false edge resets the coordinate; the error estimate is clamped to the maximum after it is written and the height is floored at the minimum; the ping delegate caches a peer coordinate only behind Update's nil error and the payload guards; the set of writers of the client's fields is closed. The numeric range of the error beyond the clamp and the validity re-check is not decided.",
-		Run: runC20,
+		Run:     runC20,
 		Mutants: []Mutant{
 			{Name: "rename-locals", Equivalent: true, Regexp: true, File: "serf/ping_delegate.go", Func: "func (p *pingDelegate) NotifyPingComplete(", Old: `\b(coord|dec|before|after)\b`, New: "${1}Renamed"},
 			{Name: "mutate-before-check", File: "coordinate/client.go", Func: "func (c *Client) Update(", Old: "\tif err := c.checkCoordinate(other); err != nil {\n\t\treturn nil, err\n\t}\n", New: "\trttSeconds0 := c.latencyFilter(node, rtt.Seconds())\n\t_ = rttSeconds0\n\tif err := c.checkCoordinate(other); err != nil {\n\t\treturn nil, err\n\t}\n", Expect: "R1"},
@@ -38,9 +38,9 @@ func init() {
 		},
 	})
 	register(&Rule{
-		ID: "C21",
+		ID:      "C21",
 		Explain: "Decides the formula's structure, not its floating-point value: DistanceTo and ApplyForce perform every vector operation behind IsCompatibleWith and raise DimensionalityConflictError on the other edge; the raw distance is the sum of exactly {magnitude(diff(a.Vec,b.Vec)), a.Height, b.Height} and the adjusted distance adds exactly {a.Adjustment, b.Adjustment}, selected only on its > 0 edge (order-insensitive multisets, symmetric in the two operands; magnitude is the square root of a sum of squares of the difference, so swapping operands changes nothing but rounding); hence with non-negative heights the estimate is non-negative. Rounding error and the 1 ns symmetry bound as numbers are not computed.",
-		Run: runC21,
+		Run:     runC21,
 		Mutants: []Mutant{
 			{Name: "distance-without-check", File: "coordinate/coordinate.go", Func: "func (c *Coordinate) DistanceTo(", Old: "\tif !c.IsCompatibleWith(other) {\n\t\tpanic(DimensionalityConflictError{})\n\t}\n", New: "", Expect: "R1"},
 			{Name: "adjustment-once", File: "coordinate/coordinate.go", Func: "func (c *Coordinate) DistanceTo(", Old: "adjustedDist := dist + c.Adjustment + other.Adjustment", New: "adjustedDist := dist + c.Adjustment", Expect: "R3"},
